@@ -15,6 +15,8 @@ import (
 	"golang.org/x/tools/go/ssa/ssautil"
 )
 
+var theProg *Prog
+
 const modulePath = "github.com/jub0bs/cors"
 
 type Prog struct {
@@ -129,6 +131,7 @@ func LoadProg(repo string, specDir string) (*Prog, error) {
 		return nil, err
 	}
 	P.Specs = sp
+	theProg = P
 	return P, nil
 }
 
